@@ -165,5 +165,37 @@ pub fn drive(args: &Args) -> i32 {
         };
         writeln!(out, "{}", ev).unwrap();
     }
+    // groups spanning more than 16 384 rows / reaching the last columns, with only a few member cells present:
+    // every member gets the master translated by ITS offset, however far it is
+    for (kind, master, gref, members) in [
+        ("col", (0u32, 1u32), "B1:B20000".to_string(), vec![(1u32, 1u32), (16383, 1), (16384, 1), (16385, 1), (19998, 1), (19999, 1)]),
+        ("col", (1_000_000, 3), "D1000001:D1048576".to_string(), vec![(1_000_001, 3), (1_048_575, 3)]),
+        ("row", (4, 0), "A5:XFC5".to_string(), vec![(4, 1), (4, 255), (4, 256), (4, 16_000), (4, 16_378)]),
+    ] {
+        let mtext = "A1+$B$2";   // relative part moves with the member, absolute part stays
+        let want: Vec<String> = members.iter().map(|(r, c)| {
+            let (dr, dc) = (r - master.0, c - master.1);
+            format!("{}{}+$B$2", crate::build::xlsx::col_name(dc), 1 + dr)
+        }).collect();
+        let mut toks = vec![json!({"k": "row", "r": master.0}), json!({"k": "c", "r": [master.0, master.1], "f": mtext, "fattrs": {"t": "shared", "ref": gref, "si": "0"}, "v": "0"})];
+        let mut cur = master.0;
+        for (r, c) in &members {
+            if *r != cur { toks.push(json!({"k": "rowend"})); toks.push(json!({"k": "row", "r": r})); cur = *r; }
+            toks.push(json!({"k": "c", "r": [r, c], "f": "", "fattrs": {"t": "shared", "si": "0"}, "v": "0"}));
+        }
+        toks.push(json!({"k": "rowend"}));
+        let bytes = build_xlsx(&json!({"sheets": [{"name": "S1", "file": "sheet1.xml", "tokens": toks}]}));
+        let got = catch(|| -> Result<Vec<String>, String> {
+            let mut wb: Xlsx<_> = Xlsx::new(Cursor::new(bytes)).map_err(|e| format!("open: {}", e))?;
+            let f = wb.worksheet_formula("S1").map_err(|e| format!("ERROR {}", e))?;
+            Ok(members.iter().map(|p| f.get_value(*p).cloned().unwrap_or_default()).collect())
+        });
+        let ev = match got {
+            Ok(Ok(g)) => json!({"e": "tall", "kind": kind, "ref": gref, "want": want, "got": g}),
+            Ok(Err(e)) => json!({"e": "tall", "kind": kind, "ref": gref, "want": want, "got": [], "error": e}),
+            Err(p) => json!({"e": "tall", "kind": kind, "ref": gref, "want": want, "got": [], "error": p}),
+        };
+        writeln!(out, "{}", ev).unwrap();
+    }
     0
 }
